@@ -9,9 +9,9 @@ THOROUGH_ROUNDS = 1
 RULE = ("op mn.seed <phrase> <passphrase>: all five phrase lengths, layout variants of the phrase (incl. exactly one separator of every white-space kind), passphrases: empty, ASCII, "
         "precomposed/decomposed pairs, full-width/ASCII pairs, ligatures, Hangul, combining marks in non-canonical order, runs of 1..100 combining marks, long passphrases (exact byte lengths up to 100000 around buffer sizes, text that grows under NFKD), astral plane; "
         "every code point with an NFKD mapping or non-zero combining class alone between ASCII letters (all below U+0250, stratified sample above; thorough: all); code points restricted to those assigned in Unicode 14.0 (python unicodedata) — the crate ships Unicode 16 tables; "
-        "NFKD-equivalent pairs must give equal seeds (extra check); the repo's four seed vectors; passphrases with leading/trailing (Unicode) white space; a sample of the pairs re-run through `export --password` (flag and environment) so that the wallet the commands build is covered too; "
+        "NFKD-equivalent pairs must give equal seeds (extra check); the repo's four seed vectors; passphrases with leading/trailing (Unicode) white space; a sample of the pairs re-run through `export --password` (flag and environment) so that the wallet the commands build is covered too; every printable ASCII character at the start / middle / end of a passphrase given as --password=VALUE, --password VALUE and PASSWORD=VALUE; "
         "non-trivial = distinct (words, passphrase); judge = BIP-39 PBKDF2 from the standard with the NFKD table of python's unicodedata")
-EXHAUSTIVE_SWEEPS = {"quick": [], "thorough": []}
+EXHAUSTIVE_SWEEPS = {"quick": ["every non-alphanumeric printable ASCII character inside a command-line passphrase"], "thorough": ["every printable ASCII character inside a command-line passphrase"]}
 ASSUMPTIONS = ["NFKD table: python unicodedata 14.0 vs unicode-normalization 16.0, equal on code points assigned in 14.0 (normalisation stability policy)"]
 
 POOL = ["é", "é", "ñ", "Å", "Å", "ﬁ", "Ａ", "ｂ", "１", "²", "㎏", "한", "글", "각", "가", "ö̖", "ạ̈", "ạ̈", "q̣̇", "q̣̇", "𝒜", "𝟘", "😀", "𐐷", "ǆ", "ẛ̣", "Ω", "Ω", "ϓ", "　", " ", "ß", "ſ", "½", "…", "㈱", "ｶﾞ", "ガ", "לֹּ", "ै़", "़ै"]
@@ -135,6 +135,20 @@ def gen(rng, tier):
         cases.append(Case("mn.seed %s %s" % (hx(" ".join(ws12)), hx(pw)), tags=("edge-whitespace", "sentinel-like")))
     # the same (phrase, passphrase) pairs through the command line: the key exported for them must be the one derived
     # from this seed (model: Cli.exportKey; judge: BIP-39 seed + BIP-32 from the standards)
+    # every printable ASCII character inside a passphrase given on the command line, at the start, in the middle and at the
+    # end, in the three ways a value can be given: --password=VALUE, --password VALUE, PASSWORD=VALUE in the environment
+    # (what the shell-like layers between argv and the library might rewrite: _ - = , ; : @ % $ ~ \ quotes, blanks)
+    styles = ["flag", "sep", "env"]
+    k = 0
+    for cp in range(0x20, 0x7f):
+        ch = chr(cp)
+        if tier != "thorough" and ch.isalnum() and cp % 6:
+            continue
+        for pw in ("correct" + ch + "horse", ch + "ab", "ab" + ch) if (tier == "thorough" or not ch.isalnum()) else ("x" + ch + "y",):
+            k += 1
+            for st in (styles if (pw.startswith("correct") and not ch.isalnum()) else [styles[k % 3]]):
+                cases.append(Case("cli.export %s %s %s" % (hx(" ".join(ws12)), hx(pw), "default"), tags=("route", "printable-in-passphrase", "style:" + st), runner="cli",
+                                  meta={"via": {"mnemonic": rng.choice(["flag", "env"]), "password": st}}))
     from vlib import routes
     lib = [c for c in cases if "edge-whitespace" in c.tags] + rng.sample([c for c in cases if c.tags[0] in ("random", "nfkd-equivalent", "single-char", "latin1")], 30 if tier == "quick" else 150)
     cases += routes.add_routes(lib, rng, len(lib), "quick")
